@@ -12,6 +12,7 @@ import (
 	"runtime/debug"
 	"sort"
 	"strings"
+	"sync/atomic"
 	"time"
 	_ "time/tzdata"
 )
@@ -258,7 +259,16 @@ func digestLines(lines []string) string {
 }
 
 // execute runs engine e once on tape t.
+// execStart / execSeed: the execution in progress (read by the worker's real-time watchdog).
+var (
+	execStart atomic.Int64
+	execSeed  atomic.Uint64
+)
+
 func execute(e *Engine, prop, tier string, seed uint64, t *Tape, opt map[string]string) (res *Result) {
+	execSeed.Store(seed)
+	execStart.Store(time.Now().UnixNano())
+	defer execStart.Store(0)
 	r := &Run{Prop: prop, Tier: tier, Seed: seed, T: t, Stats: map[string]int{}, Cfg: map[string]any{}, Opt: opt}
 	res = &Result{Seed: seed}
 	finish := func() {
